@@ -51,8 +51,8 @@ package decoder
 // ---- native syntax only - and is returned exactly when the position lies in it or on one of its ends.
 //@ contract (*decoder.PathDecoder).bodyForFileAndPos (d, name, f, pos) (body, err)
 //@   ensures [C16,C07,C03] (err == nil) == (body != nil)
-//@   ensures [C16,C07,name:the-root-body-of-that-file] implies(err == nil, typeis(f.Body, "*hclsyntax.Body") && body == as(f.Body, "*hclsyntax.Body"))
-//@   ensures [C16,C07,name:only-for-a-position-inside-or-at-the-ends] implies(err == nil, typeis(f.Body, "*hclsyntax.Body") && (as(f.Body, "*hclsyntax.Body").Range().ContainsPos(pos) || posEqual(as(f.Body, "*hclsyntax.Body").Range().Start, pos) || posEqual(as(f.Body, "*hclsyntax.Body").Range().End, pos)))
+//@   ensures [C16,C07,C02,name:the-root-body-of-that-file] implies(err == nil, typeis(f.Body, "*hclsyntax.Body") && body == as(f.Body, "*hclsyntax.Body"))
+//@   ensures [C16,C07,C02,C06,C12,name:only-for-a-position-inside-or-at-the-ends] implies(err == nil, typeis(f.Body, "*hclsyntax.Body") && (as(f.Body, "*hclsyntax.Body").Range().ContainsPos(pos) || posEqual(as(f.Body, "*hclsyntax.Body").Range().Start, pos) || posEqual(as(f.Body, "*hclsyntax.Body").Range().End, pos)))
 //@   ensures [C16,C07,name:always-for-such-a-position] implies(typeis(f.Body, "*hclsyntax.Body") && (as(f.Body, "*hclsyntax.Body").Range().ContainsPos(pos) || posEqual(as(f.Body, "*hclsyntax.Body").Range().Start, pos) || posEqual(as(f.Body, "*hclsyntax.Body").Range().End, pos)), err == nil)
 
 // ---- C03/C14: the files of a path are enumerated in sorted order (the map's iteration order is never seen)
